@@ -9,6 +9,7 @@ import (
 
 	"github.com/scionproto/scion/pkg/addr"
 	"github.com/scionproto/scion/pkg/scrypto"
+	"github.com/scionproto/scion/pkg/scrypto/cms/protocol"
 	"github.com/scionproto/scion/pkg/scrypto/cppki"
 
 	"verifharness/internal/vt"
@@ -280,4 +281,45 @@ func (w *World) WirePayload(a APayload) ([]byte, bool) {
 		return nil, false
 	}
 	return raw, true
+}
+
+// CMS assembles the CMS SignedData (DER ContentInfo, no certificates attached) around raw with the
+// given signer infos. Nothing is validated.
+func CMS(raw []byte, sis []protocol.SignerInfo) []byte {
+	eci, err := protocol.NewDataEncapsulatedContentInfo(raw)
+	if err != nil {
+		vt.Fatal("eci: %v", err)
+	}
+	sd := protocol.SignedData{Version: 1, EncapContentInfo: eci, SignerInfos: sis}
+	if sis == nil {
+		sd.SignerInfos = []protocol.SignerInfo{}
+	}
+	for _, si := range sis {
+		sd.AddDigestAlgorithm(si.DigestAlgorithm)
+	}
+	der, err := sd.ContentInfoDER()
+	if err != nil {
+		vt.Fatal("content info: %v", err)
+	}
+	return der
+}
+
+// SignedTRC builds the signed TRC for payload a with genuine signer infos of the listed pool
+// certificates, as a remote would serve it (encoded and decoded again). It does not verify it.
+func (w *World) SignedTRC(a APayload, signers []int) cppki.SignedTRC {
+	t := w.TRC(a)
+	raw, err := t.Encode()
+	if err != nil {
+		vt.Fatal("payload %+v does not encode: %v", a, err)
+	}
+	var sis []protocol.SignerInfo
+	for _, i := range signers {
+		c := w.Cert(i)
+		sis = append(sis, SignerInfo(raw, c.X, c.Key))
+	}
+	dec, err := cppki.DecodeSignedTRC(CMS(raw, sis))
+	if err != nil {
+		vt.Fatal("signed TRC %+v does not decode: %v", a, err)
+	}
+	return dec
 }
